@@ -418,7 +418,11 @@ def kkt(prog: Program, rep, sc) -> None:
     v = ast.fix_missing_locations(_Canon().visit(_copy.deepcopy(v)))
     kk = f"scale_symmetric(sp.sparse.bmat([[{h}, {j}.T], [{j}, None]]))"
     n_txt = f"__item__({j}.shape, 1)"
-    ok = isinstance(v, ast.Call) and dotted(v.func) == "Scaling" and len(v.args) == 2 and U(v.args[0]) == f"-{kk}[:{n_txt}]" and U(v.args[1]) == f"{kk}[{n_txt}:]"
+    from .common import bind_args
+    b_ = bind_args(sc.methods["__init__"], v) if isinstance(v, ast.Call) and dotted(v.func) == "Scaling" and "__init__" in sc.methods else None
+    ip = [p_ for p_ in sc.methods["__init__"].params if p_ != "self"] if "__init__" in sc.methods else []
+    ok = b_ is not None and len(ip) >= 2 and U(b_[ip[0]]) == f"-{kk}[:{n_txt}]" and U(b_[ip[1]]) == f"{kk}[{n_txt}:]" and \
+        (len(v.args) + len(v.keywords) == 2 or all(U(b_[q]) in ("0", "0.0") for q in ip[2:] if q in b_))
     rep.check(ok, "kkt-weights", m.qualname, short(r[0]), f"var_weights = -D[:n], cons_weights = D[n:] for D = scale_symmetric([[H, J'],[J, 0]]) (found {U(v)[:120]})", m.loc(r[0]))
 
     scale_symmetric_rule(prog, rep)
